@@ -1349,3 +1349,94 @@ package main
 //@   requires pkg != nil && sharedCache != nil
 //@   skip safety
 //@ end
+
+// ---- C01/C02/C03/C09/C10/C12: the compile step: every file goes through every stage, in order ----
+
+//@ stable C01 C02 C05 C09 C10: flagLiterals flagTiny
+
+//@ ghost tcDirIter int
+//@ ghost tcImportPath string
+//@ ghost tcGoFile ref
+//@ ghost tcPrinted ref
+//@ ghost tcPatched ref
+//@ ghost tcPkgName string
+//@ ghost tcPkgPath string
+//@ ghost tcLinkerVars bool
+//@ ghost tcTrimmed bool
+//@ ghost tcCfg string
+//@ ghost tcAsmSaved bool
+
+//@ hookset compile
+//@ hook before math/rand.NewSource(seed)
+//@   assert("[C03] generator-is-seeded-from-the-user-seed-when-there-is-one", len(flagSeed.bytes) == 0 || ref(randSeed) == ref(flagSeed.bytes))
+//@   assert("[C03] generator-seed-is-the-first-eight-bytes", seed == int64(binary.BigEndian.Uint64(randSeed)))
+//@ hook before mvdan.cc/garble.computeLinkerVariableStrings(p)
+//@   assert("[C05,C09] linker-variables-are-computed-for-the-package-being-compiled", p == tf.pkg)
+//@   tcLinkerVars = true
+//@ hook before (*mvdan.cc/garble.transformer).saveGoAsmNames(t)
+//@   assert("[C01] assembly-names-are-saved-only-for-selected-packages-with-assembly", len(tf.curPkg.SFiles) > 0 && tf.curPkg.ToObfuscate)
+//@   tcAsmSaved = true
+//@ hook after mvdan.cc/garble.alterTrimpath(f) (r)
+//@   tcTrimmed = true
+//@ hook after (*mvdan.cc/garble.transformer).processImportCfg(t, f, req) (cfg, err)
+//@   assert("[C02] import-config-is-built-after-the-temp-dir-is-trimmed", tcTrimmed)
+//@   tcCfg = cfg
+//@ hook after (*mvdan.cc/garble.listedPackage).obfuscatedImportPath(p) (r)
+//@   tcPkgPath = r
+//@ hook before mvdan.cc/garble.flagSetValue(f, n, v)
+//@   assert("[C01,C02] only-the-package-path-and-the-import-config-are-replaced", n == "-p" || n == "-importcfg")
+//@   if n == "-p" { assert("[C01,C02] compiler-is-told-the-obfuscated-package-path", v == tcPkgPath) }
+//@   if n == "-importcfg" { assert("[C01,C02] compiler-reads-the-rewritten-import-config", v == tcCfg && v == newImportCfg) }
+//@ hook before mvdan.cc/garble.stripRuntime(b, f)
+//@   assert("[C10] runtime-is-stripped-only-under-tiny", tf.curPkg.ImportPath == "runtime" && flagTiny)
+//@ hook after path/filepath.Base(p) (r)
+//@   tcImportPath = tf.curPkg.ImportPath
+//@ hook before mvdan.cc/garble.updateEntryOffset(f, k)
+//@   assert("[C12] entry-offset-key-is-patched-into-runtime-symtab", tcImportPath == "runtime" && basename == "symtab.go")
+//@ hook before mvdan.cc/garble.updateMagicValue(f, k)
+//@   assert("[C12] magic-value-is-patched-into-abi-symtab", tcImportPath == "internal/abi" && basename == "symtab.go")
+//@ hook before (*mvdan.cc/garble.transformer).transformDirectives(t, c)
+//@   assert("[C01] directives-rewritten-are-those-of-the-file-being-compiled", ref(c) == ref(file.Comments) && len(c) == len(file.Comments))
+//@   tcDirIter = i
+//@ hook before (*mvdan.cc/garble.transformer).transformGoFile(t, f)
+//@   assert("[C01] directives-of-the-file-are-rewritten-before-its-identifiers", tcDirIter == i && f == file)
+//@ hook after (*mvdan.cc/garble.transformer).transformGoFile(t, f) (r)
+//@   tcGoFile = r
+//@ hook after (*mvdan.cc/garble.listedPackage).obfuscatedPackageName(p) (r)
+//@   tcPkgName = r
+//@ hook before mvdan.cc/garble.printFile(lp, f)
+//@   assert("[C01,C02] the-file-printed-is-the-transformed-one-under-the-obfuscated-package-name", lp == tf.curPkg && f == tcGoFile && f.Name.Name == tcPkgName)
+//@ hook after mvdan.cc/garble.printFile(lp, f) (src, err)
+//@   tcPrinted = ref(src)
+//@   tcPatched = ref(src)
+//@ hook after mvdan.cc/garble.reflectMainPostPatch(s, lp, c) (r)
+//@   tcPatched = ref(r)
+//@ hook before (*mvdan.cc/garble.transformer).writeSourceFile(t, b, o, content)
+//@   assert("[C01,C02] what-the-compiler-reads-is-what-was-printed", ref(content) == tcPrinted || ref(content) == tcPatched)
+//@ end
+
+//@ func (*listedPackage).hasDep
+//@   pure
+//@   trusted membership test in the (lazily built) set of transitive dependencies
+
+//@ func stripRuntime
+//@   trusted rule table checked by the ground obligations of C10; here only when it is called
+//@   assigns *
+
+//@ func updateEntryOffset
+//@   trusted rewrites one constant expression in runtime/symtab.go
+//@   assigns *
+
+//@ func updateMagicValue
+//@   trusted rewrites one constant in internal/abi/symtab.go
+//@   assigns *
+
+//@ func (*transformer).transformCompile
+//@   property C01 C02 C03 C05 C09 C10 C12
+//@   hooks compile
+//@   requires tf != nil && tf.curPkg != nil && !tcLinkerVars && !tcTrimmed && !tcAsmSaved && tcDirIter == -1
+//@   skip safety call-requires
+//@   maxpaths 6000
+//@   may_panic when true
+//@   ensures @linker-variables-are-known-whenever-literals-are-obfuscated: [C05,C09] r1 == nil && flagLiterals ==> tcLinkerVars
+//@ end
